@@ -140,4 +140,44 @@ theorem SO3_Jinvp_one (eps : ℝ) (p : Vec3 ℝ) : SO3Jinvp eps (Quat.one : Quat
     unfold SO3Log; ext <;> lie_unfold <;> simp
   rw [SO3_Jinvp_eq, hl, so3JlInv_zero, Mat3.one_mulVec]
 
+
+/-! ### pass 10: Taylor-branch helpers (SE3 AdjT defect, Jr defect size, SE3 block product with an arbitrary 3×3 product) -/
+theorem vec_lemma_defect (u v t p D : Vec3 ℝ) (h : u.add v = t.add D) : p.add v = (t.add (p.add u.neg)).add D := by
+  have : v = (t.add D).add u.neg := by rw [← h]; ext <;> lie_unfold <;> ring
+  rw [this]; ext <;> lie_unfold <;> ring
+/-- `Jl(y)(t×y) + Exp(y)·t = t + d₁·(y×t) + d₂·y×(y×t)` on the Taylor branch `‖y‖ ≤ eps` -/
+theorem se3_defect_taylor (eps : ℝ) (y t : Vec3 ℝ) (h : ¬ eps < y.norm) :
+    ((so3Jl eps y).mulVec (t.cross y)).add ((so3Exp eps y).act t)
+      = t.add (((y.cross t).smul (y.normSq ^ 3 * (y.normSq - 128) / 737280)).add
+          ((y.cross (y.cross t)).smul (y.normSq ^ 2 * (y.normSq ^ 2 - 160 * y.normSq + 10240) / 7372800))) := by
+  obtain ⟨e1, e2⟩ := so3_coef_taylor eps y.norm h
+  rw [so3Jl_eq_polyK, so3Exp_eq_coef, se3_residual, ← Vec3.norm_sq, e1, e2, Vec3.norm_sq]
+  ext <;> lie_unfold <;> ring
+theorem cross_normSq_le (x v : Vec3 ℝ) : (x.cross v).normSq ≤ x.normSq * v.normSq := by
+  have h : (x.cross v).normSq = x.normSq * v.normSq - (x.dot v) ^ 2 := by lie_unfold; ring
+  rw [h]; nlinarith [sq_nonneg (x.dot v)]
+theorem cross_cross_normSq_le (x v : Vec3 ℝ) : (x.cross (x.cross v)).normSq ≤ x.normSq ^ 2 * v.normSq := by
+  have h1 := cross_normSq_le x (x.cross v)
+  have h2 := cross_normSq_le x v
+  have hx : 0 ≤ x.normSq := Vec3.normSq_nonneg x
+  nlinarith [mul_le_mul_of_nonneg_left h2 hx]
+/-- `se3_Jl · se3_Jl_inv` for an arbitrary product `P = Jl·JlInv` of the 3×3 blocks (and any `Q`):
+`(P u + (w − P w) ; P v)` with `w = Q·JlInv·v` -/
+theorem se3Jl_se3JlInv_mulVec_general (eps : ℝ) (x : se3 ℝ) (u v : Vec3 ℝ) (P : Mat3 ℝ)
+    (hJ : (so3Jl eps x.phi).mul (so3JlInv eps x.phi) = P) :
+    (se3Jl eps x).mulVec ((se3JlInv eps x).mulVec (u.toList ++ v.toList))
+      = ((P.mulVec u).add (((calcQ eps x).mulVec ((so3JlInv eps x.phi).mulVec v)).add
+          (P.mulVec ((calcQ eps x).mulVec ((so3JlInv eps x.phi).mulVec v))).neg)).toList ++ (P.mulVec v).toList := by
+  rw [se3JlInv_mulVec, se3Jl_mulVec]
+  have e : ∀ w : Vec3 ℝ, (so3Jl eps x.phi).mulVec ((so3JlInv eps x.phi).mulVec w) = P.mulVec w := by
+    intro w; rw [← Mat3.mul_mulVec, hJ]
+  rw [Mat3.mulVec_add, e, e, Mat3.neg_mulVec, Mat3.mul_mulVec, Mat3.mul_mulVec, Mat3.mulVec_neg, e]
+  congr 2
+  ext <;> lie_unfold <;> ring
+theorem so3Jl_mul_so3JlInv_taylor (eps : ℝ) (x : Vec3 ℝ) (h : ¬ eps < x.norm) :
+    (so3Jl eps x).mul (so3JlInv eps x)
+      = polyK 1 (-(x.normSq ^ 2) / 1440) (-(x.normSq) / 720 + x.normSq ^ 2 / 1440) x := by
+  have hc : (so3Jl eps x).mul (so3JlInv eps x) = (so3JlInv eps x).mul (so3Jl eps x) := by
+    rw [so3JlInv_eq_polyK, so3Jl_eq_polyK, polyK_mul, polyK_mul]; congr 1 <;> ring
+  rw [hc, so3JlInv_mul_so3Jl_taylor eps x h]
 end PP
